@@ -5,6 +5,7 @@ import AtreeModel.Replay.Health
 import AtreeModel.Replay.Map
 import AtreeModel.Replay.World
 import AtreeModel.Replay.Settings
+import AtreeModel.Replay.Codec
 /-
   atree_model: replays a trace (stdin) on the Lean model and compares every line the
   implementation produced with the model's own rendering.
@@ -67,6 +68,12 @@ partial def loopSettings (h : IO.FS.Stream) (s : SetState) (n : Nat) : IO SetSta
   let line := (line.dropRightWhile (fun c => c == '\n' || c == '\r'))
   loopSettings h (s.stepLine line n) (n + 1)
 
+partial def loopCodec (h : IO.FS.Stream) (s : CodecState) (n : Nat) : IO CodecState := do
+  let line ← h.getLine
+  if line.isEmpty then return s
+  let line := (line.dropRightWhile (fun c => c == '\n' || c == '\r'))
+  loopCodec h (s.stepLine line n) (n + 1)
+
 def main (args : List String) : IO UInt32 := do
   let stdin ← IO.getStdin
   match args with
@@ -94,11 +101,16 @@ def main (args : List String) : IO UInt32 := do
     let s ← loopSettings stdin {} 1
     IO.println ("RESULT " ++ reportJson "settings" s.rep)
     return (if s.rep.nMismatch == 0 then 0 else 1)
+  | ["codec"] =>
+    let s ← loopCodec stdin {} 1
+    let s := if s.pending.isEmpty then s else s.note s!"end of trace: model expected further lines: {s.pending}"
+    IO.println ("RESULT " ++ reportJson "codec" s.rep)
+    return (if s.rep.nMismatch == 0 then 0 else 1)
   | ["health"] =>
     let s ← loopHealth stdin {} 1
     let s := if s.pending.isEmpty then s else s.note s!"end of trace: model expected further lines: {s.pending}"
     IO.println ("RESULT " ++ reportJson "health" s.rep)
     return (if s.rep.nMismatch == 0 then 0 else 1)
   | _ =>
-    IO.eprintln "usage: atree_model <array|storage|health|map|world|settings> < trace"
+    IO.eprintln "usage: atree_model <array|storage|health|map|world|settings|codec> < trace"
     return 2
